@@ -1,3 +1,6 @@
 """Constants shared by harness modules and property specs (no imports of icalendar here)."""
 C16_OPS = ["set_start", "set_end", "set_DTSTART", "set_END", "set_DURATION", "del_DTSTART", "del_END",
            "del_DURATION", "start_None", "end_None", "DURATION_None"]
+C17_OPS = ["getitem", "setitem", "delitem", "contains", "get", "pop", "pop_default", "setdefault",
+           "update_dict", "update_pairs", "update_kwargs", "copy", "eq", "eq_mapping", "or", "ior",
+           "ctor_mapping", "ctor_pairs", "ctor_kwargs", "has_key", "iter_len"]
